@@ -18,10 +18,11 @@ package cryptoutils
 //@ pred isPad2(p seq, s seq, bs int) { len(p) == ((len(s) + bs) / bs) * bs && p[:len(s)] === s && p[len(s)] == 128
 //@        && (forall i :: len(s) < i && i < len(p) ==> p[i] == 0) }
 
+//@ spec func pad2S(s seq, bs int) seq { cat(s, seq(128), zeros(((len(s) + bs) / bs) * bs - len(s) - 1)) }
 //@ func ISO9797Method2Pad
 //@   props C03 C05 C10 C12
 //@   requires blockSize > 0 && blockSize <= 4096
-//@   ensures "method-2": isPad2(result, data, blockSize)
+//@   ensures "method-2": result === pad2S(data, blockSize)
 //@   ensures fresh(result)
 //@   assigns nothing
 //@   safety all
